@@ -314,7 +314,7 @@ def time_instant(rng, scn, bias=None):
     return int(min(max(t, 0), dur))
 
 
-def add_simple_time_controls(rng, scn, n, p_clock=0.25, targets=None, bias=None):
+def add_simple_time_controls(rng, scn, n, p_clock=0.25, targets=None, bias=None, p_priority=0.0):
     """n simple controls  AT TIME t / AT CLOCKTIME c  on link status (or valve setting)."""
     tg = targets if targets is not None else plain_pipes(scn)
     if not tg:
@@ -335,7 +335,8 @@ def add_simple_time_controls(rng, scn, n, p_clock=0.25, targets=None, bias=None)
             act = {'link': l['id'], 'attr': 'setting', 'value': l['setting'] * rng.pick([0.5, 1.5, 2.0])}
         else:
             act = {'link': l['id'], 'attr': 'status', 'value': rng.pick(['OPEN', 'CLOSED', 'CLOSED'])}
-        scn['controls'].append({'name': name, 'kind': 'simple', 'cond': cond, 'then': [act], 'priority': 3})
+        scn['controls'].append({'name': name, 'kind': 'simple', 'cond': cond, 'then': [act],
+                                'priority': rng.irange(0, 6) if (p_priority and rng.chance(p_priority)) else 3})
         made += 1
     return made
 
